@@ -131,6 +131,18 @@ impl Client {
 
         if let RecordKind::Chunk = header.kind {
             let chunk: Chunk = try_deserialize_record(&record)?;
+            // The chunk's address is derived from its content: a holder must not be able to
+            // answer with some other chunk than the one that was asked for.
+            if chunk.address() != &ChunkAddress::new(addr) {
+                error!(
+                    "Chunk content does not match the requested address {addr:?}, got a chunk of {:?}",
+                    chunk.address()
+                );
+                return Err(NetworkError::GetRecordError(
+                    ant_networking::GetRecordError::RecordDoesNotMatch(record),
+                )
+                .into());
+            }
             Ok(chunk)
         } else {
             error!(
